@@ -1,13 +1,13 @@
 (* C03 ("pending error" clause): a failure that is already queued when the system is observed
-   quiescent ends the start-up - no runnable is started afterwards - unless the supervisor's context
-   is cancelled (then blockUntilRunnableReady may take its ctx.Done branch and the loop goes on).
-   The monitor without that exception, [c03_pending], is refuted by a concrete schedule. *)
+   quiescent ends the start-up - no runnable is started afterwards.  Since the repair of
+   blockUntilRunnableReady (a cancelled readiness wait still returns a queued failure) this holds
+   without exception; before it, the schedule [pend_sched_old] refuted it. *)
 From Coq Require Import List NArith Bool Arith Lia.
 From GS Require Import LTS Supervisor SupAccept SupProps SupInv SupTrig SupGate SupResult SupReports
                        SupStop SupOnce SupProgress SupReload.
 Import ListNotations.
 
-(* ---------------------------------------------------------------- the refutation *)
+(* ---------------------------------------------------------------- the schedule that used to refute it *)
 
 Definition pend_cfg : config :=
   {| specs := [ {| stateable := true; reloadable := false; rsender := false; ssender := false;
@@ -17,14 +17,24 @@ Definition pend_cfg : config :=
 
 (* runnable 0 fails while Main is inside a slow IsRunning() call; the system is quiescent with the
    error queued; the parent context is cancelled; IsRunning() answers false; the select in
-   blockUntilRunnableReady takes ctx.Done although errorChan is ready too; runnable 1 is started *)
+   blockUntilRunnableReady takes ctx.Done although errorChan is ready too.  Before the repair the
+   gate returned nil and runnable 1 was started ([LLaunch 1; LRunCall 1]); now the gate returns the
+   queued failure, nothing is started and Run() returns that error. *)
+Definition pend_prefix : list label :=
+  [LLaunch 0; LRunStore 0; LRunCall 0; LMonSub 0; LMonRecv 0; LPollBegin 0; LRunRet 0 (Some (7, false)); LErrSend 0;
+   LQuiet; LParentCancel; LPoll 0 false; LGateCtx 0].
 Definition pend_sched : list label :=
-  [LLaunch 0; LRunCall 0; LMonSub 0; LMonRecv 0; LPollBegin 0; LRunRet 0 (Some (7, false)); LErrSend 0;
-   LQuiet; LParentCancel; LPoll 0 false; LGateCtx 0; LLaunch 1; LRunCall 1].
+  pend_prefix ++ [LMainShutdown; LStopCall 0; LStopRet 0; LSdCancel; LStmExit; LSdWgDone; LMainReturn (ResErr 7)].
 
-Lemma c03_pending_refuted :
-  exists c ls s, run (step c) (init c) ls = Some s /\ c03_pending c (obs_trace obs ls) = false.
-Proof. exists pend_cfg, pend_sched. eexists. split; vm_compute; reflexivity. Qed.
+Lemma pend_sched_returns_error :
+  exists s1 s, run (step pend_cfg) (init pend_cfg) pend_prefix = Some s1 /\ main s1 = MExit (ResErr 7) /\
+               step pend_cfg s1 (LLaunch 1) = None /\
+               run (step pend_cfg) (init pend_cfg) pend_sched = Some s /\ main s = MReturned (ResErr 7) /\
+               launched s = 1.
+Proof.
+  eexists. eexists. split; [vm_compute; reflexivity|]. split; [reflexivity|]. split; [reflexivity|].
+  split; [vm_compute; reflexivity|]. split; reflexivity.
+Qed.
 
 (* ---------------------------------------------------------------- how a step moves the start-up loop,
    the runnable goroutines and the error queue *)
@@ -33,6 +43,9 @@ Definition is_real_ev (e : event) : bool :=
   match e with ERunRet _ (Some (_, false)) => true | _ => false end.
 Definition is_quiet_ev (e : event) : bool :=
   match e with EQuiet | ESnap _ => true | _ => false end.
+
+(* a launched goroutine that has not entered the runnable's Run yet *)
+Definition waiting (p : rn_pc) : Prop := p = RnLaunched \/ p = RnStored.
 
 Definition decided (s : state) : Prop := main_res (main s) <> None.
 Definition at_gate (s : state) : Prop := exists j, main s = MGate j \/ main s = MGateCheck j.
@@ -45,7 +58,7 @@ Inductive pe_effect (c : config) (s s' : state) : Prop :=
     main s = MLaunch i -> main s' = MReap -> rn s' = rn s -> errq s' = errq s -> hist s' = hist s ->
     pe_effect c s s'
 | pe_open i :
-    (main s = MGate i \/ main s = MGateCheck i) -> (errq s = [] \/ ctx_done s = true) ->
+    (main s = MGate i \/ main s = MGateCheck i) -> errq s = [] ->
     main s' = after_launch c i -> rn s' = rn s -> errq s' = errq s -> hist s' = hist s -> pe_effect c s s'
 | pe_decide :
     decided s' -> rn s' = rn s ->
@@ -57,8 +70,11 @@ Inductive pe_effect (c : config) (s s' : state) : Prop :=
 | pe_send i e :
     rn_at s i = RnSending e -> rn s' = upd (rn s) i RnDone -> errq s' = errq s ++ [e] ->
     main s' = main s -> hist s' = hist s -> pe_effect c s s'
+| pe_runstore i :
+    rn_at s i = RnLaunched -> rn s' = upd (rn s) i RnStored -> main s' = main s -> errq s' = errq s ->
+    hist s' = hist s -> pe_effect c s s'
 | pe_runcall i :
-    rn_at s i = RnLaunched -> rn s' = upd (rn s) i RnRunning -> main s' = main s -> errq s' = errq s ->
+    waiting (rn_at s i) -> rn s' = upd (rn s) i RnRunning -> main s' = main s -> errq s' = errq s ->
     hist s' = ERunCall i :: hist s -> pe_effect c s s'
 | pe_other :
     (main s' = main s \/ exists i, main s = MGate i /\ main s' = MGateCheck i) ->
@@ -87,10 +103,10 @@ Proof.
   all: try (eapply pe_closed; [eassumption|reflexivity|reflexivity|reflexivity|reflexivity]; fail).
   all: try (apply pe_other; [right; eexists; split; [eassumption|reflexivity]|reflexivity|reflexivity|
             right; eexists; split; [reflexivity|split; reflexivity]]; fail).
-  all: try (eapply pe_open; [first [left; eassumption|right; eassumption]|
-                             first [left; assumption|right; assumption]|
+  all: try (eapply pe_open; [first [left; eassumption|right; eassumption]|assumption|
                              reflexivity|reflexivity|reflexivity|reflexivity]; fail).
-  all: try (eapply pe_runcall; [eassumption|reflexivity|reflexivity|reflexivity|reflexivity]; fail).
+  all: try (eapply pe_runcall; [first [left; eassumption|right; eassumption]|reflexivity|reflexivity|reflexivity|reflexivity]; fail).
+  all: try (eapply pe_runstore; [eassumption|reflexivity|reflexivity|reflexivity|reflexivity]; fail).
   all: try (eapply (pe_runret c _ _ _ (Some (_, true))); [eassumption|reflexivity|reflexivity|reflexivity|reflexivity]; fail).
   all: try (eapply (pe_runret c _ _ _ (Some (_, false))); [eassumption|reflexivity|reflexivity|reflexivity|reflexivity]; fail).
   all: try (eapply (pe_runret c _ _ _ None); [eassumption|reflexivity|reflexivity|reflexivity|reflexivity]; fail).
@@ -136,12 +152,11 @@ Definition sending (s : state) : Prop := exists i e, rn_at s i = RnSending e.
 Definition InvA (s : state) : Prop :=
   real_in (hist s) = true -> sending s \/ errq s <> [] \/ decided s.
 
-(* after "real error, then a quiescent point": the context is visibly cancelled, or no goroutine is
-   waiting to call Run and Main either has fixed its result or sits at a gate with the error queued *)
+(* after "real error, then a quiescent point": no goroutine is waiting to call Run and Main either
+   has fixed its result or sits at a gate with the error queued *)
 Definition InvB (s : state) : Prop :=
   err_then_quiet false (rev (hist s)) = true ->
-  cancel_evidence (hist s) = true \/
-  ((forall i, rn_at s i <> RnLaunched) /\ (decided s \/ (errq s <> [] /\ at_gate s))).
+  (forall i, ~ waiting (rn_at s i)) /\ (decided s \/ (errq s <> [] /\ at_gate s)).
 
 Lemma rn_at_lt s i : rn_at s i <> RnDone -> i < length (rn s).
 Proof.
@@ -179,15 +194,23 @@ Proof.
   apply Nat.ltb_lt in Li. rewrite Li in H. discriminate H.
 Qed.
 
-Lemma quiet_no_launched c s i : length (rn s) = nrun c -> quiescent c s = true -> rn_at s i <> RnLaunched.
+Lemma quiet_no_launched c s i : length (rn s) = nrun c -> quiescent c s = true -> ~ waiting (rn_at s i).
 Proof.
-  intros Hl Q Hi.
-  assert (Li : i < nrun c) by (rewrite <- Hl; apply rn_at_lt; rewrite Hi; discriminate).
+  intros Hl Q Hw.
+  assert (Li : i < nrun c) by (rewrite <- Hl; apply rn_at_lt; destruct Hw as [E|E]; rewrite E; discriminate).
   assert (Hin : In (LRunCall i) (autos c s)).
   { unfold autos. rewrite !in_app_iff. left. apply in_map_iff. exists i. split; [reflexivity|now apply in_idxs]. }
-  pose proof (quiescent_autos _ _ _ Q Hin) as H. cbn [step0] in H. rewrite Hi in H.
-  apply Nat.ltb_lt in Li. rewrite Li in H. discriminate H.
+  assert (Hin2 : In (LRunStore i) (taus_nt c s))
+    by (in_chain ltac:(apply in_map_iff; exists i; split; [reflexivity|now apply in_idxs])).
+  pose proof (quiescent_autos _ _ _ Q Hin) as H. pose proof (quiescent_taus _ _ _ Q Hin2) as H2.
+  cbn [step0] in H, H2. apply Nat.ltb_lt in Li. destruct Hw as [E|E]; rewrite E, Li in *.
+  - destruct (stateable (spec c i)); cbn [andb negb] in *; discriminate.
+  - discriminate H.
 Qed.
+
+Lemma not_waiting_upd (l : list rn_pc) i p :
+  (forall j, ~ waiting (get RnDone l j)) -> ~ waiting p -> forall j, ~ waiting (get RnDone (upd l i p) j).
+Proof. intros H Hp j. destruct (get_upd_cases RnDone l i j p) as [-> | ->]; auto. Qed.
 
 Lemma quiet_errq_main c s :
   0 < nrun c -> reachable_sup c s -> quiescent c s = true -> errq s <> [] -> decided s \/ at_gate s.
@@ -224,7 +247,8 @@ Proof.
   unfold InvA, InvB, sending in *.
   destruct (step_pe_effect _ _ _ _ H)
     as [i Em Es Li Er Eq Eh Emr | i Em Em' Er Eq Eh | i Hg Hc Em' Er Eq Eh | Hd Er Eh
-       | i e Ern Er Em Eq Eh | i e Ern Er Eq Em Eh | i Ern Er Em Eq Eh | Hm Er Eq Eh | x Hq Q Eh Em Er Eq].
+       | i e Ern Er Em Eq Eh | i e Ern Er Eq Em Eh | i Ern Er Em Eq Eh | i Ern Er Em Eq Eh | Hm Er Eq Eh
+       | x Hq Q Eh Em Er Eq].
   - (* launch *)
     assert (Hi : rn_at s i = RnNot) by (apply (ig_launch _ _ IG i Em i); [lia|exact Li]).
     rewrite Eh, Eq. split.
@@ -232,32 +256,29 @@ Proof.
       * left. exists i0, e0. unfold rn_at in *. rewrite Er, get_upd_other; [exact H0|]. intros <-. congruence.
       * right; left; exact H0.
       * exfalso. exact (decided_not_launch _ _ Em H0).
-    + intros R. destruct (B R) as [H0|[_ [H0|[_ H0]]]]; [now left| |].
+    + intros R. destruct (B R) as [_ [H0|[_ H0]]].
       * exfalso. exact (decided_not_launch _ _ Em H0).
       * exfalso. exact (at_gate_not_launch _ _ Em H0).
   - (* launch gate closed *)
     rewrite Eh, Eq. unfold rn_at. rewrite Er. split.
     + intros R. destruct (A R) as [H0|[H0|H0]]; [now left|right; now left|].
       exfalso. exact (decided_not_launch _ _ Em H0).
-    + intros R. destruct (B R) as [H0|[_ [H0|[_ H0]]]]; [now left| |].
+    + intros R. destruct (B R) as [_ [H0|[_ H0]]].
       * exfalso. exact (decided_not_launch _ _ Em H0).
       * exfalso. exact (at_gate_not_launch _ _ Em H0).
-  - (* a gate opens *)
+  - (* a gate opens: only with an empty error queue *)
     assert (G : at_gate s) by (exists i; exact Hg).
     rewrite Eh, Eq. unfold rn_at. rewrite Er. split.
     + intros R. destruct (A R) as [H0|[H0|H0]]; [now left|right; now left|].
       exfalso. exact (at_gate_not_decided _ G H0).
-    + intros R. destruct (B R) as [H0|[_ [H0|[H0 _]]]]; [now left| |].
+    + intros R. destruct (B R) as [_ [H0|[H0 _]]].
       * exfalso. exact (at_gate_not_decided _ G H0).
-      * destruct Hc as [Hc|Hc]; [congruence|]. left.
-        destruct (ig_gate _ _ IG i Hg) as (N & Li & _). eapply ctx_evidence; eauto.
+      * congruence.
   - (* Main fixes (or keeps) its result *)
     split; [intros _; right; right; exact Hd|].
     intros R. assert (R0 : err_then_quiet false (rev (hist s)) = true).
     { destruct Eh as [Eh|[r Eh]]; rewrite Eh in R; [exact R|]. now rewrite etq_cons_nq in R. }
-    destruct (B R0) as [H0|[NL _]].
-    + left. destruct Eh as [->|[r ->]]; [exact H0|now apply cancel_evidence_cons].
-    + right. split; [|now left]. unfold rn_at. rewrite Er. exact NL.
+    destruct (B R0) as [NL _]. split; [|now left]. unfold rn_at. rewrite Er. exact NL.
   - (* a runnable's Run returns *)
     assert (Li : i < length (rn s)) by (apply rn_at_lt; rewrite Ern; discriminate).
     assert (Hoth : forall j p, j <> i -> get RnDone (upd (rn s) i p) j = rn_at s j)
@@ -269,27 +290,30 @@ Proof.
       * destruct (A R) as [(i0 & e0 & H0)|[H0|H0]]; [|right; now left|right; now right].
         left. exists i0, e0. unfold rn_at. rewrite Er, Hoth; [exact H0|]. intros ->. congruence.
     + intros R. rewrite etq_cons_nq in R by reflexivity.
-      destruct (B R) as [H0|[NL H0]]; [left; now apply cancel_evidence_cons|right; split; [|exact H0]].
-      intros j. unfold rn_at. rewrite Er.
-      destruct (get_upd_cases RnDone (rn s) i j (match e with Some (id, false) => RnSending id | _ => RnDone end)) as [-> | ->];
-        [destruct e as [[? []]|]; discriminate|apply NL].
+      destruct (B R) as [NL H0]. split; [|exact H0].
+      unfold rn_at. rewrite Er. apply not_waiting_upd; [exact NL|].
+      intros [X|X]; destruct e as [[? []]|]; discriminate X.
   - (* the error is queued *)
     assert (Hne : errq s ++ [e] <> []) by (destruct (errq s); discriminate).
     rewrite Eh, Eq. unfold decided, at_gate. rewrite Em. fold (decided s). fold (at_gate s). split.
     + intros _. right; now left.
-    + intros R. destruct (B R) as [H0|[NL H0]]; [now left|right; split].
-      * intros j. unfold rn_at. rewrite Er.
-        destruct (get_upd_cases RnDone (rn s) i j RnDone) as [-> | ->]; [discriminate|apply NL].
+    + intros R. destruct (B R) as [NL H0]. split.
+      * unfold rn_at. rewrite Er. apply not_waiting_upd; [exact NL|]. intros [X|X]; discriminate X.
       * destruct H0 as [H0|[_ H0]]; [now left|right; now split].
+  - (* startRunnable stores and broadcasts *)
+    rewrite Eh, Eq. unfold decided, at_gate. rewrite Em. fold (decided s). fold (at_gate s). split.
+    + intros R. destruct (A R) as [(i0 & e0 & H0)|[H0|H0]]; [|right; now left|right; now right].
+      left. exists i0, e0. unfold rn_at. rewrite Er, get_upd_other; [exact H0|]. intros <-.
+      unfold rn_at in *. congruence.
+    + intros R. destruct (B R) as [NL _]. exfalso. apply (NL i). now left.
   - (* a runnable's Run is invoked *)
     rewrite Eh, Eq. unfold decided, at_gate. rewrite Em. fold (decided s). fold (at_gate s). split.
     + intros R. cbn [real_in existsb is_real_ev orb] in R.
       destruct (A R) as [(i0 & e0 & H0)|[H0|H0]]; [|right; now left|right; now right].
       left. exists i0, e0. unfold rn_at. rewrite Er, get_upd_other; [exact H0|]. intros <-.
-      unfold rn_at in *. congruence.
+      unfold rn_at in *. destruct Ern as [X|X]; congruence.
     + intros R. rewrite etq_cons_nq in R by reflexivity.
-      destruct (B R) as [H0|[NL _]]; [left; now apply cancel_evidence_cons|].
-      exfalso. exact (NL i Ern).
+      destruct (B R) as [NL _]. exfalso. exact (NL i Ern).
   - (* everything else *)
     assert (Hd : decided s -> decided s').
     { unfold decided. destruct Hm as [->|(i & E & _)]; [auto|]. rewrite E. intros X. now contradiction X. }
@@ -302,16 +326,15 @@ Proof.
       destruct (A R0) as [H0|[H0|H0]]; [now left|right; now left|right; right; auto].
     + intros R. assert (R0 : err_then_quiet false (rev (hist s)) = true).
       { destruct Eh as [Eh|(x & Eh & _ & Hx)]; rewrite Eh in R; [exact R|]. now rewrite etq_cons_nq in R. }
-      destruct (B R0) as [H0|[NL H0]].
-      * left. destruct Eh as [->|(x & -> & _)]; [exact H0|now apply cancel_evidence_cons].
-      * right. split; [exact NL|]. destruct H0 as [H0|[H0 H1]]; [left; auto|right; split; auto].
+      destruct (B R0) as [NL H0]. split; [exact NL|].
+      destruct H0 as [H0|[H0 H1]]; [left; auto|right; split; auto].
   - (* a quiescent observation *)
     rewrite Eh, Eq. unfold decided, at_gate, rn_at. rewrite Em, Er.
     fold (decided s). fold (at_gate s). split.
     + intros R. cbn [real_in existsb] in R. rewrite (not_quiet_not_real _ Hq) in R. exact (A R).
     + intros R. rewrite etq_cons, Hq in R. cbn [andb] in R. apply orb_true_iff in R as [R|R].
-      * destruct (B R) as [H0|H0]; [left; now apply cancel_evidence_cons|now right].
-      * right. pose proof (ig_len _ _ IG) as Hl. split; [intros j; eapply quiet_no_launched; eassumption|].
+      * exact (B R).
+      * pose proof (ig_len _ _ IG) as Hl. split; [intros j; eapply quiet_no_launched; eassumption|].
         destruct (A R) as [H0|[H0|H0]].
         -- exfalso. exact (quiet_no_sending _ _ Hl Q H0).
         -- destruct (quiet_errq_main _ _ Hn Hre Q H0) as [X|X]; [now left|right; now split].
@@ -331,39 +354,43 @@ Proof.
 Qed.
 
 (* C03 (pending error): after "a real error was returned, then the system was observed quiescent" no
-   runnable's Run is invoked, unless the trace shows the supervisor's context was cancelled *)
-Theorem sup_c03_pending_nc c ls s :
-  run (step c) (init c) ls = Some s -> c03_pending_nc c (obs_trace obs ls) = true.
+   runnable's Run is invoked - on every schedule, cancelled context or not *)
+Theorem sup_c03_pending c ls s :
+  run (step c) (init c) ls = Some s -> c03_pending c (obs_trace obs ls) = true.
 Proof.
   intros H. eapply all_check_reachable; [|exact H].
-  intros s0 l s1 e Hre Hs Ho. destruct e; try reflexivity. cbn [chk_pending_nc].
+  intros s0 l s1 e Hre Hs Ho. destruct e; try reflexivity. cbn [chk_pending].
   destruct l; try discriminate Ho. injection Ho as ->.
   unfold step in Hs. cbn [step0] in Hs.
-  destruct (rn_at s0 i) eqn:Er; try discriminate Hs.
-  destruct (Nat.ltb i (nrun c)) eqn:L; [|discriminate Hs]. apply Nat.ltb_lt in L.
+  assert (LW : i < nrun c /\ waiting (rn_at s0 i)).
+  { destruct (rn_at s0 i) eqn:Er; try discriminate Hs; (split; [|first [now left|now right]]);
+      destruct (Nat.ltb i (nrun c)) eqn:L; try (apply Nat.ltb_lt in L; exact L);
+      cbn [andb] in Hs; discriminate Hs. }
+  destruct LW as [L Hw].
   destruct (InvAB_reachable c s0 ltac:(lia) Hre) as [_ B]. unfold InvB in B.
-  destruct (err_then_quiet false (rev (hist s0))) eqn:R; [|apply orb_true_r].
-  destruct (B eq_refl) as [X|[NL _]]; [now rewrite (cancel_evidence_rev _ X)|].
-  exfalso. exact (NL i Er).
+  destruct (err_then_quiet false (rev (hist s0))) eqn:R; [|reflexivity].
+  destruct (B eq_refl) as [NL _]. exfalso. exact (NL i Hw).
 Qed.
 
-(* the gate itself (fix 8eb6141): while a failure is queued and the context is not cancelled, no
-   step opens a readiness gate - Main stays at the gate with the failure queued, or fixes its
-   result - and no runnable is started *)
+(* the gate itself (fixes 8eb6141 and the pending-on-cancel repair): while a failure is queued, no
+   step - not even one taken because the context was cancelled - opens a readiness gate: Main stays
+   at the gate with the failure queued, or fixes its result; and no runnable is started *)
 Theorem sup_c03_pending_gate c s l s' :
-  at_gate s -> errq s <> [] -> ctx_done s = false -> step c s l = Some s' ->
+  at_gate s -> errq s <> [] -> step c s l = Some s' ->
   ((at_gate s' /\ errq s' <> []) \/ decided s') /\ launched s' = launched s.
 Proof.
-  intros G Hq Hc H. split.
+  intros G Hq H. split.
   - destruct (step_pe_effect _ _ _ _ H)
       as [i Em Es Li Er Eq Eh Emr | i Em Em' Er Eq Eh | i Hg Hc' Em' Er Eq Eh | Hd Er Eh
-         | i e Ern Er Em Eq Eh | i e Ern Er Eq Em Eh | i Ern Er Em Eq Eh | Hm Er Eq Eh | x Hx Q Eh Em Er Eq].
+         | i e Ern Er Em Eq Eh | i e Ern Er Eq Em Eh | i Ern Er Em Eq Eh | i Ern Er Em Eq Eh | Hm Er Eq Eh
+         | x Hx Q Eh Em Er Eq].
     + exfalso. exact (at_gate_not_launch _ _ Em G).
     + exfalso. exact (at_gate_not_launch _ _ Em G).
-    + exfalso. destruct Hc' as [X|X]; congruence.
+    + exfalso. congruence.
     + now right.
     + left. unfold at_gate. rewrite Em, Eq. now split.
     + left. unfold at_gate. rewrite Em, Eq. split; [exact G|]. destruct (errq s); discriminate.
+    + left. unfold at_gate. rewrite Em, Eq. now split.
     + left. unfold at_gate. rewrite Em, Eq. now split.
     + left. rewrite Eq. split; [|exact Hq]. unfold at_gate in *.
       destruct Hm as [->|(i & E & ->)]; [exact G|]. exists i. now right.
@@ -382,7 +409,7 @@ Qed.
    gate with the error still queued *)
 Theorem sup_c03_pending_quiescent c s :
   0 < nrun c -> reachable_sup c s -> quiescent c s = true -> real_in (hist s) = true ->
-  (forall i, rn_at s i <> RnLaunched) /\ (decided s \/ (errq s <> [] /\ at_gate s)).
+  (forall i, ~ waiting (rn_at s i)) /\ (decided s \/ (errq s <> [] /\ at_gate s)).
 Proof.
   intros Hn Hre Q R. destruct (InvAB_reachable c s Hn Hre) as [A _].
   pose proof (ig_len _ _ (InvGate_reachable _ _ Hre)) as Hl.
